@@ -240,6 +240,29 @@ func c05Run(w *W) {
 				if q == nil {
 					continue
 				}
+				if len(c.rawHdr) >= 4 && w.Choose(simrt.SProg, 6) == 0 {
+					// a raw reply whose header has no pipe hop at all: a single
+					// word with the top bit set (a request / survey id), whose
+					// lower 31 bits happen to equal the id of a connected pipe.
+					// It names no connection and is discarded
+					m.Free()
+					x := mangos.NewMessage(16)
+					x.Header = append(x.Header, c.rawHdr[0]|0x80, c.rawHdr[1], c.rawHdr[2], c.rawHdr[3])
+					x.Body = append(x.Body, "re:nohop"...)
+					before := len(wire)
+					w.Fault("msg-malformed")
+					xc := w.Do(fmt.Sprintf("ctx%d.SendMsg(header without a pipe hop)", c.idx), func() (interface{}, error) { return nil, sendMsg(c, x) })
+					w.Settle()
+					if xc.Returned() && xc.Err != nil {
+						x.Free()
+					}
+					if len(wire) != before {
+						w.Failf("C05/reply-without-pipe-hop-delivered", "%s: a raw reply with the one-word header %x (top bit set: an id, not a pipe) was transmitted on %s", kind, x.Header, wire[before].Pipe.Name)
+						return
+					}
+					w.Probe("raw-reply-without-pipe-hop-discarded")
+					continue
+				}
 				m.Header = append(m.Header, c.rawHdr...)
 			} else if w.Choose(simrt.SProg, 4) == 0 {
 				// the reply message still carries a header from wherever the
